@@ -164,6 +164,8 @@ class Input(ContextManager["Input"]):
                 os.close(self.wakeup_read_fd)
             if self.wakeup_write_fd is not None:
                 os.close(self.wakeup_write_fd)
+            # the numbers may be handed out again: forget them
+            self.wakeup_read_fd = self.wakeup_write_fd = None
         termios.tcsetattr(self.in_stream, termios.TCSANOW, self.original_stty)
         # a KeyboardInterrupt landing while a read's Nonblocking was being undone
         # would otherwise leave the stream non-blocking
